@@ -698,12 +698,13 @@ func tputsRun(tw *trace.Writer, rng *rand.Rand, grid int, full bool) error {
 				n++
 			}
 		}
-		cpts := []int{-1, 0, 1, 7, 8, 9, 15, 16, 87, 88, 255, 256, 300}
+		cpts := []int{-100, -2, -1, 0, 1, 7, 8, 9, 15, 16, 87, 88, 255, 256, 300}
 		if full {
 			cpts = nil
 			for i := -1; i <= 300; i++ {
 				cpts = append(cpts, i)
 			}
+			cpts = append(cpts, -2, -3, -100, -1000)
 		}
 		for i, fg := range cpts {
 			for j, bg := range cpts {
@@ -712,7 +713,8 @@ func tputsRun(tw *trace.Writer, rng *rand.Rand, grid int, full bool) error {
 				}
 				var buf bytes.Buffer
 				(&terminfo.Terminfo{}).TPuts(&buf, e.TColor(fg, bg))
-				tw.Emit(trace.Ev{"ev": "TColor", "term": name, "colors": e.Colors, "fg": fg, "bg": bg, "out": trace.Ints(buf.Bytes())})
+				tw.Emit(trace.Ev{"ev": "TColor", "term": name, "colors": e.Colors, "fg": fg, "bg": bg, "out": trace.Ints(buf.Bytes()),
+					"ecma": strings.HasPrefix(e.SetFg, "\x1b[") && strings.HasPrefix(e.SetBg, "\x1b[")})
 				n++
 			}
 		}
